@@ -2,11 +2,13 @@
 import verif as V
 
 PROP = "C12"
-SPEC = "Bng.Spec.C12"
+SPEC = ["Bng.Spec.C12", "Bng.Spec.C12Nexus"]
 COMPS = [
     V.Component("dist", monitors=["store-agree", "restart", "remote", "unique", "idempotent", "reclaimed", "reverse", "roundtrip"]),
     # PoolAllocator (store.go) over a fault-injecting MemoryAllocationStore shared with other pools
     V.Component("poolalloc", monitors=["store-agree", "reverse", "unique", "count"]),
+    # nexus.Client: the cache of subscriber records against the store while the store refuses writes (fault put on|off, audit)
+    V.Component("nexusclient", monitors=["store-agree"]),
 ]
 LEVEL = ("Session mode (bitmap allocator): store/memory agreement under every store-failure vector, restart from the store "
          "for every enumeration order (prefixes preserved, uniqueness), and application of remote puts are theorems over "
@@ -20,6 +22,9 @@ ASSUME = [
     "the store is a plain key-value map: a successful Put/Delete is durable and visible to the next Query; a failing call changes nothing; Query returns every key (any order); its failure at Start is not explored",
     "histories are admissible: a remote put announces a prefix of the pool that is free or already the subscriber's; the complement is the recorded finding KF-dist-remote-collision (its verdicts are emitted and attributed to it while the collision lasts)",
     "announced prefixes are masked to their length (net.ParseCIDR); malformed JSON/CIDR records are ignored by the code and not generated",
+    "Start with other nodes writing (dist `restartgap`): ONE remote put or delete reaches the store right after the Query of the load step was answered; the harness's store notifies whoever watches at that moment and delivers the notification when Start has returned (a real store delivers it on a goroutine that waits for da.mu); the model's Session.startGap / Lease.startGap take any sequence of such changes (session_start_gap_replayed)",
+    "poolalloc: two PoolAllocators of the SAME geometry share the store (every unit of one collides with the same unit of the other in the by-IP index) next to raw records of a third pool; the store's getters are called by the probe only",
+    "nexusclient: memory = the client's cache of subscriber records, store = nexus.MemoryStore behind a wrapper that refuses every write under /subscriber/ while `fault put on`; the watch callbacks are settled after every operation",
     "bitmap geometries with fewer than 2^64 units (GoodCfg)",
     "PoolAllocator (store.go) is modelled over the bitmap model with the store's records and the by-IP conflict index as a set of foreign prefixes; MemoryAllocationStore's Marshal/Unmarshal is exercised by the harness (rtstore) and modelled as the identity; modes.go (LocalAllocator/HybridAllocator, thin maps of pool id to PoolAllocator) is not modelled",
 ]
